@@ -865,15 +865,6 @@ func (s *impl) onPublish(pkt *mqttp.Publish) (mqttp.IFace, error) {
 			return nil, mqttp.CodeProtocolError
 		}
 
-		if reason == mqttp.CodeSuccess {
-			// [MQTT-3.3.4-7]
-			if s.rxQuota == 0 {
-				return nil, mqttp.CodeReceiveMaximumExceeded
-			}
-
-			s.rxQuota--
-		}
-
 		r := mqttp.NewPubRec(s.version)
 		r.SetPacketID(id)
 
@@ -883,8 +874,18 @@ func (s *impl) onPublish(pkt *mqttp.Publish) (mqttp.IFace, error) {
 		// store incoming QoS 2 message before sending PUBREC as theoretically PUBREL
 		// might come before store in case message store done after write PUBREC
 		if reason == mqttp.CodeSuccess {
-			if !s.pubIn.store(pkt, false) {
+			if _, dup := s.pubIn.messages.Load(id); dup {
+				// retransmission of a still unreleased message: it does not occupy a new
+				// receive slot, so it must neither consume quota nor exceed it
 				reason = mqttp.CodePacketIDInUse
+			} else {
+				// [MQTT-3.3.4-7]
+				if s.rxQuota == 0 {
+					return nil, mqttp.CodeReceiveMaximumExceeded
+				}
+
+				s.rxQuota--
+				s.pubIn.store(pkt, false)
 			}
 			// s.metric.OnAddUnAckRecv(1)
 		} else {
